@@ -56,7 +56,7 @@ class CallCtx:
         self.kinds = Counter()
         net = net or {}
         self.seg = net.get("seg") or (0,)
-        self.eintr = set(net.get("eintr") or ())
+        self.eintr = Counter(net.get("eintr") or ())    # piece index -> number of EINTRs before it
         self.lat = net.get("lat", 0)
         self.piece = 0
         self.fired = []
@@ -409,6 +409,11 @@ class SimSocket:
                 if f.get("when") == "after":
                     ctx.sent += len(data)
                     node.feed(conn, bytes(data), ctx.id)
+                elif f.get("when") == "partial" and len(data) > 1:
+                    k = max(1, min(f.get("sent", 1), len(data) - 1))
+                    w.stats["probe:torn-send"] += 1
+                    ctx.sent += k
+                    node.feed(conn, bytes(data[:k]), ctx.id)
                 _raise_fault(w, f, None)
             sent = f.get("sent", 0)
             if sent:
@@ -486,8 +491,8 @@ class SimSocket:
             _raise_fault(w, f, "reset")
         if conn.broken:
             raise ConnectionResetError(errno.ECONNRESET, "sim: connection reset by peer")
-        if ctx.piece in ctx.eintr:
-            ctx.eintr.discard(ctx.piece)
+        if ctx.eintr.get(ctx.piece):
+            ctx.eintr[ctx.piece] -= 1
             w.stats["fault:eintr"] += 1
             raise OSError(errno.EINTR, "sim: interrupted system call")
         out = conn.out
